@@ -256,7 +256,7 @@ def _markup(pos, ti):
     return rt.fin(ok, "set_node_markup changed content")
 
 
-QUICK = [("list", 11), ("list", 5), ("docmarks", 1), ("mx1", 1), ("mx1", 5), ("mx2", 3), ("mx3", 1), ("mx4", 4), ("mx5", 2), ("mx6", 3)]
+QUICK = [("list", 11), ("list", 5), ("list", 14), ("docmarks", 1), ("mx1", 1), ("mx1", 5), ("mx2", 3), ("mx3", 1), ("mx4", 4), ("mx5", 2), ("mx6", 3)]
 
 
 def obligations(tier, seed):
